@@ -13,7 +13,9 @@ import (
 	"encoding/json"
 	"errors"
 	"fmt"
+	"k8s.io/apimachinery/pkg/types"
 	"net/url"
+	"strconv"
 	"sync"
 	"time"
 
@@ -70,6 +72,10 @@ func toRS(j jrs) *event.ResourceStatus {
 		u.SetNamespace(j.ID[0])
 		u.SetKind(j.ID[3])
 		u.SetGeneration(*j.G)
+		// a resourceVersion/uid that moves only with the generation: what an object whose children or whose LIST
+		// of children changed between two polls looks like (the parent revision stays, the status tree does not)
+		u.SetResourceVersion(strconv.FormatInt(*j.G+1, 10))
+		u.SetUID(types.UID("uid-" + j.ID[1]))
 		rs.Resource = u
 	}
 	if j.E != nil {
@@ -216,7 +222,7 @@ var c17GenIds = []jid{
 	{"ns", "p2", "", "Pod"},
 }
 
-func i64p(v int64) *int64 { return &v }
+func i64p(v int64) *int64   { return &v }
 func strp(s string) *string { return &s }
 
 func genRS(rng *proto.Rng, id jid, depth int) jrs {
@@ -369,10 +375,10 @@ type jsync struct {
 	E *jerr  `json:"e,omitempty"`
 }
 type jread struct {
-	ID jid   `json:"id"`
+	ID jid    `json:"id"`
 	K  string `json:"k"` // ok | okcancel | fail
-	RS *jrs  `json:"rs,omitempty"`
-	E  *jerr `json:"e,omitempty"`
+	RS *jrs   `json:"rs,omitempty"`
+	E  *jerr  `json:"e,omitempty"`
 }
 type jpoll struct {
 	Sync  jsync   `json:"sync"`
